@@ -130,11 +130,11 @@ impl UnitSet {
                     {
                         if ap.abs() > bp.abs() {
                             factor *= f.powi((*bp).into());
-                            *ap += *bp;
+                            *ap = add_power(*ap, *bp);
                             *bp = 0;
                         } else {
                             factor /= f.powi((*ap).into());
-                            *bp += *ap;
+                            *bp = add_power(*bp, *ap);
                             *ap = 0;
                         }
                     }
